@@ -215,6 +215,18 @@ fn gen_frame_pdu(r: &mut Rng, dir: Dir) -> Vec<u8> {
 }
 
 fn gen_frame(r: &mut Rng, tr: &str, dir: Dir) -> Vec<u8> {
+    if tr == "tcp" && r.below(30) == 0 {
+        // MBAP has no 256-byte limit: PDUs with the largest byte counts (254..=265 bytes)
+        let p = match dir {
+            Dir::Req => match r.below(3) {
+                0 => { let bc = *r.pick(&[250usize, 252, 254]); let mut p = vec![0x10, r.u8(), r.u8(), 0, (bc / 2) as u8, bc as u8]; p.extend(r.bytes(bc)); p }
+                1 => { let bc = *r.pick(&[251usize, 253, 255]); let q = bc * 8; let mut p = vec![0x0F, r.u8(), r.u8(), (q >> 8) as u8, q as u8, bc as u8]; p.extend(r.bytes(bc)); p }
+                _ => { let bc = *r.pick(&[246usize, 248, 250, 252, 254]); let mut p = vec![0x17, 0, 1, 0, 2, r.u8(), r.u8(), 0, (bc / 2) as u8, bc as u8]; p.extend(r.bytes(bc)); p }
+            },
+            Dir::Rsp => { let bc = *r.pick(&[252usize, 253, 254, 255]); let mut p = vec![*r.pick(&[1u8, 2, 3, 4, 0x17]), bc as u8]; p.extend(r.bytes(bc)); p }
+        };
+        return tcp_frame(r.u16(), r.u8(), &p);
+    }
     let p = gen_frame_pdu(r, dir);
     if tr == "rtu" {
         rtu_frame(r.u8(), &p)
@@ -522,6 +534,16 @@ pub fn generate(prop: &str, tier: &str, seed: u64, out: &mut impl Write) {
             }
         }
         "C09" => {
+            // PDU lengths at and beyond 65535, where `pdu_len + 1` no longer fits the 16-bit length field
+            for (n, field) in [(65534usize, 65535u32), (65535, 0), (65535, 65535), (65536, 1), (65536, 0), (65538, 3), (65538, 65535)] {
+                let mut b = vec![0x12u8, 0x34, 0, 0, (field >> 8) as u8, field as u8, 0x09, 0x18, 0xFF, (n as u32 - 3) as u8];
+                b.resize(7 + n, 0x5A);
+                let h = hex_of(&b);
+                w!("tcpext {n} {h}");
+                w!("tcpscan rsp {h}");
+                w!("tcpdec rsp {h}");
+                w!("#@ C09 {h}");
+            }
             for _ in 0..scale(tier, 700, 15000) {
                 let d = if r.bool() { Dir::Req } else { Dir::Rsp };
                 let f = gen_frame(r, "tcp", d);
@@ -544,6 +566,8 @@ pub fn generate(prop: &str, tier: &str, seed: u64, out: &mut impl Write) {
                 }
             }
         }
+        "C09x" => {}
+
         "C10" => {
             for _ in 0..scale(tier, 250, 6000) {
                 for tr in ["rtu", "tcp"] {
@@ -758,7 +782,7 @@ pub fn generate(prop: &str, tier: &str, seed: u64, out: &mut impl Write) {
                 let n = b.len();
                 let bs = bits_str(b);
                 writeln!(out, "pack {bs} {t} {f}").unwrap();
-                writeln!(out, "frombools {bs} {t} {f} 0,1,{},{},{},{},65535,65536,{},18446744073709551614,18446744073709551615", n.saturating_sub(1), n, n + 1, n + 8, 65536 + n).unwrap();
+                writeln!(out, "frombools {bs} {t} {f} 0,1,{},{},{},{},65535,65536,{},{},{},{},4294967296,{},2305843009213693952,{},4611686018427387904,9223372036854775807,9223372036854775808,{},18446744073709551614,18446744073709551615", n.saturating_sub(1), n, n + 1, n + 8, 65536 + n, 256 + n.saturating_sub(1), 65536 + n.saturating_sub(1), 131072 + n.saturating_sub(1), 4294967296usize + n.saturating_sub(1), 2305843009213693952usize + n.saturating_sub(1), 9223372036854775808usize + n.saturating_sub(1)).unwrap();
                 writeln!(out, "#@ C16 {bs} {t} {f}").unwrap();
             };
             // exhaustive: all boolean sequences of length 1..=L into clean, dirty and patterned targets
@@ -795,7 +819,7 @@ pub fn generate(prop: &str, tier: &str, seed: u64, out: &mut impl Write) {
             let emit = |ws: &[u16], t: usize, f: &str, out: &mut dyn Write, r: &mut Rng| {
                 let n = ws.len();
                 let s = words_str(ws);
-                writeln!(out, "fromwords {s} {t} {f} 0,1,{},{},{},255,256,{},65536,9223372036854775807,18446744073709551614,18446744073709551615", n.saturating_sub(1), n, n + 1, 256 + n).unwrap();
+                writeln!(out, "fromwords {s} {t} {f} 0,1,{},{},{},255,256,{},65536,{},4294967296,{},4611686018427387904,9223372036854775807,9223372036854775808,{},18446744073709551614,18446744073709551615", n.saturating_sub(1), n, n + 1, 256 + n, 65536 + n.saturating_sub(1), 4294967296usize + n.saturating_sub(1), 9223372036854775808usize + n.saturating_sub(1)).unwrap();
                 writeln!(out, "#@ C17 {s} {t} {f}").unwrap();
                 if n >= 1 && 2 * n <= 255 && t >= 2 * n {
                     let a = r.addr();
